@@ -61,6 +61,7 @@ def run_socket(case):
 
     rng = random.Random(case['seed'])
     viol = []
+    seen_excs = set()
     obs = {'socket_cases': 1, 'requests': 0, 'failing_requests': 0, 'stream_items': 0, 'bytes_sent': 0, 'max_payload': 0, 'reordered_responses': 0}
     d = tempfile.mkdtemp(prefix='vf-c18-')
     path = os.path.join(d, 'sock')
@@ -83,7 +84,7 @@ def run_socket(case):
             if rng.random() < 0.06:
                 # around the transports' polling intervals (0.1 s read timeouts, 1 s)
                 latency = round(rng.choice([rng.uniform(0.095, 0.108), rng.uniform(0.095, 0.108), rng.uniform(0.195, 0.205), rng.uniform(0.99, 1.02)]), 4)
-            fail = rng.random() < 0.1
+            fail = rng.choice(targets.HANDLER_EXCS) if rng.random() < 0.12 else False
             abandon = None
             if rng.random() < 0.08 and c % 4 != 3:
                 # the caller gives up on this request long before the handler answers; later requests must be unaffected
@@ -136,7 +137,7 @@ def run_socket(case):
                             if mode == 'raw':
                                 y = client.request('/raw', payload, response_timeout=60)
                             else:
-                                y = client.request('/tagged', (tag, lat, fail, payload), response_timeout=60)
+                                y = client.request('/tagged', (tag, lat, fail, payload), response_timeout=15 if fail else 60)
                         except BaseException as e:  # noqa: BLE001
                             y = e
                         with lock:
@@ -149,9 +150,14 @@ def run_socket(case):
                                     viol.append({'mech': 'socket/payload-corrupted', 'msg': f'raw payload {spec!r}: handler saw {y!r}, sent {dg!r}'[:300]})
                             elif fail:
                                 obs['failing_requests'] += 1
-                                if not isinstance(y, KeyError) or tuple(y.args) != (tag,):
-                                    mech = 'socket/response-to-wrong-request' if isinstance(y, (tuple, KeyError)) else 'socket/wrong-error'
-                                    viol.append({'mech': mech, 'msg': f'request {tag} (handler raises KeyError({tag})) got {y!r}'[:300]})
+                                ecls = targets.handler_exc_class(fail)
+                                obs['handler_exception_classes'] = obs.get('handler_exception_classes', 0) + (1 if fail not in seen_excs else 0)
+                                seen_excs.add(fail)
+                                if type(y) is not ecls or tuple(y.args) != (tag,):
+                                    mech = 'socket/response-to-wrong-request' if isinstance(y, tuple) or (type(y) is ecls and y.args) else 'socket/wrong-error'
+                                    if isinstance(y, TimeoutError) and not y.args:
+                                        mech = 'socket/handler-error-never-delivered'
+                                    viol.append({'mech': mech, 'msg': f'request {tag} (handler raises {fail}({tag})) got {y!r}'[:300]})
                                 elif not (is_remote_exception(y) and 'SITE-MARK-C18' in get_remote_traceback(y)):
                                     viol.append({'mech': 'socket/remote-traceback-lost', 'msg': f'request {tag}: {y!r} lacks the handler traceback'})
                             else:
